@@ -3,7 +3,7 @@
  "name": "xattrs_expand",
  "props": ["C15", "C06"],
  "level": "U/k",
- "tier": "wip",
+ "tier": "quick",
  "harness": "h_xattrs_expand",
  "unwind": 10,
  "unwind_reason": "ext2fs_xattrs_expand is loop-free; capacity fixed to 4 and expandby to 4 (the only values used in the tree: initial capacity 4, growth by 4); harness loop over the 8 slots unwound, unwinding assertions on",
